@@ -157,13 +157,18 @@ class TimeLimit:
         def handler(signum, frame):
             raise TimeoutError()
 
+        import time
         self.old = signal.signal(signal.SIGALRM, handler)
-        signal.alarm(self.seconds)
+        self.t0 = time.time()
+        self.outer = signal.alarm(self.seconds)     # seconds left on an enclosing alarm (the check's time budget), re-armed on exit
 
     def __exit__(self, *a):
         import signal
+        import time
         signal.alarm(0)
         signal.signal(signal.SIGALRM, self.old)
+        if self.outer:
+            signal.alarm(max(1, int(self.outer - (time.time() - self.t0))))
         return False
 
 
